@@ -354,6 +354,10 @@ def stringify(node: Node) -> str:
         return "x"
 
 
+def _escape_for_double_quotes(value: str) -> str:
+    return repr(value)[1:-1].replace('"', r"\"")
+
+
 def _stringify(node: Node) -> str:
     match node:
         case MemberExpr(expr=expr, name=name):
@@ -380,9 +384,7 @@ def _stringify(node: Node) -> str:
             return str(value)
 
         case StrExpr(value=value):
-            value = repr(value)[1:-1].replace('"', r"\"")
-
-            return f'"{value}"'
+            return f'"{_escape_for_double_quotes(value)}"'
 
         case DictExpr(items=items):
             parts: list[str] = []
@@ -416,7 +418,8 @@ def _stringify(node: Node) -> str:
                         output += _stringify(arg)[1:-1]
 
                     elif fmt:
-                        output += f"{{{_stringify(arg)}:{fmt}}}"
+                        # The format spec is literal text of the f-string, just like the parts around the fields
+                        output += f"{{{_stringify(arg)}:{_escape_for_double_quotes(fmt)}}}"
 
                     else:
                         output += f"{{{_stringify(arg)}}}"
